@@ -96,7 +96,7 @@ def _day(prog, entry: Dict[str, Tuple[object, frozenset]], config: Dict[str, obj
     if premise:
         # first day of season k: the step starts on the planting date of the current season
         axioms = [(f"@{CK}.season_counter", "#0", L("=>")), ("planting_date", "CurrentDate", L("<=")),
-                  ("harvest_date", "CurrentDate", L("=>"))]
+                  ("harvest_date", "CurrentDate", L(">"))]
         # (no axiom on the development time: since fix F28 the reset restores cc0_adj itself)
         callee_axioms = {}
     sinks: list = []
